@@ -320,6 +320,7 @@ RULE = (
     "x= from dx=; for the linearity/step/integral sub-checks the analogous rule stated in their labels. distinct = distinct "
     "SHA-1 of the canonical JSON case per sub-check."
     " Arguments are also handed over as nested lists and (when whole numbers) as int64 arrays; steps may be Python ints; domain units span 1e-9..1e3."
+    " Filter or signal sets may be spectrally flat in broadcast form (domain axis of length one)."
 )
 
 # ------------------------------------------------------------------------------------------------
